@@ -1,10 +1,15 @@
-"""C18 — configuration of the check (deductive tier under construction)."""
+"""C18 — Publishing is crash-safe: index.wtml reaches the store only after all else."""
 PROPERTY = "C18"
-LEVEL = "other"
-CONTRACT_MODULES = ["contracts.specfuns"]
-FUNCTIONS = []
+LEVEL = "proof"
+CONTRACT_MODULES = ["contracts.specfuns", "contracts.pipeline"]
+FUNCTIONS = ["toasty.pipeline.PipelineManager.publish", "toasty.pipeline.local_io.LocalPipelineIo.put_item"]
 LEMMAS = []
 SLOW = ()
-TRUSTED_BASE = []
-ASSUMPTIONS = []
-EXPLANATION = "bounded run-time tier only so far"
+TRUSTED_BASE = [
+    "pyvc VC generator (python subset semantics, DESIGN.md 2.2); z3/cvc5",
+    "os.listdir returns each entry once in arbitrary order; os.rename atomic; open/put_item either complete or raise",
+]
+ASSUMPTIONS = ["a crash is a prefix of the event trace: every prefix of a path's trace is covered because the "
+               "obligations constrain where in the trace index.wtml and the rename may occur"]
+EXPLANATION = ("The transfer list is proved to end with index.wtml for every listing order and length; the loop body "
+               "is proved to complete exactly one transfer of that file; the rename is proved to follow the loop.")
